@@ -96,16 +96,19 @@ template<int Depth, class X> void explore(X&& x, std::string const& path, bool a
 }
 
 // ---- projections (element_transformed with a reference-yielding functor, member_cast, reinterpret_array_cast) applied to read-only handles: the projected view is read-only too
-struct S2 { int a; int b; };
-template<class H, class P> void proj_fact(H&& h, P proj, char const* hname, char const* pname, bool expect_readonly) {
+struct S2 { int a; int b; }; struct S2b { int p; int q; };
+template<class H, class P> void proj_fact(H&& h, P proj, char const* hname, char const* pname, bool expect_readonly, bool require_writable_when_mutable = true) {
 	if constexpr(std::is_invocable_v<P, H&&>) { using E = decltype(down(proj(std::forward<H>(h)))); constexpr bool writable = std::is_assignable_v<E, int>; count("projection_facts"); count(std::string("projection:") + pname);
 		if(expect_readonly && writable) violation(std::string("C16:writable-through-const:projection:") + pname + ":" + hname, std::string("a modifiable element reference is reachable through ") + pname + " applied to " + hname, false);
-		if(!expect_readonly && !writable) violation(std::string("C16:mutable-path-not-writable:projection:") + pname + ":" + hname, std::string(pname) + " of " + hname + " is not writable", false); }
+		if(!expect_readonly && !writable && require_writable_when_mutable) violation(std::string("C16:mutable-path-not-writable:projection:") + pname + ":" + hname, std::string(pname) + " of " + hname + " is not writable", false); }
 	else { count(std::string("not-applicable:projection:") + pname + ":" + hname); }
 }
 template<class H> void proj_facts(H&& h, char const* hname, bool ro) {
 	proj_fact(std::forward<H>(h), [](auto&& x) -> decltype(std::forward<decltype(x)>(x).element_transformed(&S2::a)) { return std::forward<decltype(x)>(x).element_transformed(&S2::a); }, hname, "element_transformed(&S::a)", ro);
 	proj_fact(std::forward<H>(h), [](auto&& x) -> decltype(std::forward<decltype(x)>(x).template member_cast<int>(&S2::a)) { return std::forward<decltype(x)>(x).template member_cast<int>(&S2::a); }, hname, "member_cast<int>(&S::a)", ro);
+	proj_fact(std::forward<H>(h), [](auto&& x) -> decltype(std::forward<decltype(x)>(x).template reinterpret_array_cast<int>(2)) { return std::forward<decltype(x)>(x).template reinterpret_array_cast<int>(2); }, hname, "reinterpret_array_cast<int>(2)", ro, false);
+	proj_fact(std::forward<H>(h), [](auto&& x) -> decltype(std::forward<decltype(x)>(x).template reinterpret_array_cast<S2b>()) { return std::forward<decltype(x)>(x).template reinterpret_array_cast<S2b>().template member_cast<int>(&S2b::p); }, hname, "reinterpret_array_cast<S'>().member_cast", ro, false);  // (composites: only the read-only direction is a C16 fact; broadcasted() is read-only by design)
+	proj_fact(std::forward<H>(h), [](auto&& x) -> decltype(std::forward<decltype(x)>(x).broadcasted()) { return std::forward<decltype(x)>(x).broadcasted().element_transformed(&S2::b); }, hname, "broadcasted().element_transformed(&S::b)", ro, false);
 }
 
 int main(int argc, char** argv) {
